@@ -4,10 +4,18 @@
 From Coq Require Import List String Ascii NArith Lia Bool Arith.
 Import ListNotations.
 Require Import P.Generated.Enums P.Spec.Values P.Generated.Tables P.Meta.Scan P.Model.Base P.Model.Token P.Model.Reader P.Model.Trace
-  P.Model.Writer P.Model.Pool P.Model.Walk P.Model.Builder P.Model.Atom P.Spec.Events P.Spec.Pool P.Spec.Valence P.Spec.Normal P.Checks.C18_defs P.Checks.Token_defs.
+  P.Model.Writer P.Model.Pool P.Model.Walk P.Model.Builder P.Model.Atom P.Spec.Events P.Spec.Pool P.Spec.Valence P.Spec.Normal P.Spec.Known P.Checks.C18_defs P.Checks.Token_defs.
 Local Open Scope string_scope.
 
-Definition show (l : list N) : string := string_of_list_ascii (map (fun c => if (c <? 128)%N then ascii_of_N c else "?"%char) l).
+Fixpoint show_N_aux (fuel : nat) (n : N) (acc : string) : string :=
+  match fuel with O => acc | S f =>
+    let acc' := String (ascii_of_N (48 + n mod 10)) acc in
+    if (n <? 10)%N then acc' else show_N_aux f (n / 10) acc' end.
+Definition show_N (n : N) : string := show_N_aux 20 n "".
+Definition show_nat (n : nat) : string := show_N (N.of_nat n).
+(* printable ASCII as is; any other code point as <U+decimal> *)
+Definition show (l : list N) : string :=
+  String.concat "" (map (fun c => if ((32 <=? c) && (c <? 127) && negb (c =? 34))%N then String (ascii_of_N c) "" else "<U+" ++ show_N c ++ ">") l).
 Inductive bres' := B'Ok (g : list atom) | B'Err (e : berr) | B'Panic | B'Skip.
 Definition berr_eqb (a b : berr) := match a, b with BJoin x y, BJoin x' y' => Nat.eqb x x' && Nat.eqb y y' | BRnum x, BRnum y => Nat.eqb x y | _, _ => false end.
 Definition bres_ok (m : bres) (i : bres') := match m, i with BOk g, B'Ok g' => list_eqb atom_eqb g g' | BErr e, B'Err e' => berr_eqb e e' | BPanic, B'Panic => true | _, B'Skip => true | _, _ => false end.
@@ -44,27 +52,25 @@ Definition reader_nopanic (c : reader_case) : bool :=
 (* the verdict does not depend on the follower (a follower that panics gives no verdict; that is C06's business) *)
 Definition reader_indep (c : reader_case) : bool :=
   forallb (fun v => verdict_eqb v VPanic || verdict_eqb v (rc_verdict c)) (rc_others c).
-Record reader_results := { rr_n : nat; rr_accepted : nat; rr_model : list string; rr_indep : list string; rr_panic : list string; rr_conf : list string }.
+Definition has_known_kind (h : list ev) : bool := existsb (fun e => match e with EExtend _ k => known_invert_panic k | _ => false end) h.
+Record reader_results := { rr_n : nat; rr_accepted : nat; rr_model : list string; rr_indep : list string; rr_panic : list string; rr_known : list string; rr_conf : list string }.
 Definition bad {A} (f : A -> bool) (name : A -> string) (l : list A) : list string := firstn 5 (map name (filter (fun c => negb (f c)) l)).
 Definition reader_analyse (cs : list reader_case) : reader_results :=
   let nm := fun c => show (rc_in c) in
   {| rr_n := List.length cs; rr_accepted := List.length (filter (fun c => verdict_eqb (rc_verdict c) VOk) cs);
-     rr_model := bad reader_model_ok nm cs; rr_indep := bad reader_indep nm cs; rr_panic := bad reader_nopanic nm cs;
+     rr_model := bad reader_model_ok nm cs; rr_indep := bad reader_indep nm cs; rr_panic := bad (fun c => reader_nopanic c || has_known_kind (rc_events c)) nm cs;
+     rr_known := firstn 2 (bad (fun c => reader_nopanic c || negb (has_known_kind (rc_events c))) nm cs);
      rr_conf := bad (fun c => conformant (rc_events c)) nm cs |}.
 Definition run_reader_suite (cs : list reader_case) :=
   let r := reader_analyse cs in
   [("RESULT", "corr.reader_model", rr_model r); ("RESULT", "C04.follower_independent", rr_indep r);
-   ("RESULT", "C06.reader_nopanic", rr_panic r); ("RESULT", "C08.reader_conformant", rr_conf r)].
+   ("RESULT", "C06.reader_nopanic", rr_panic r); ("RESULT", "C06.known.B4_invert_unimplemented", rr_known r);
+   ("RESULT", "C08.reader_conformant", rr_conf r)].
 
 (* ------------------------------------------------------------ walk *)
 Record walk_case := WC { wc_g : list atom; wc_res : wres; wc_events : list ev; wc_build : bres'; wc_text : option (list N);
   wc_reread : bres'; wc_text2 : option (list N) }.
-Fixpoint show_N_aux (fuel : nat) (n : N) (acc : string) : string :=
-  match fuel with O => acc | S f =>
-    let acc' := String (ascii_of_N (48 + n mod 10)) acc in
-    if (n <? 10)%N then acc' else show_N_aux f (n / 10) acc' end.
-Definition show_N (n : N) : string := show_N_aux 20 n "".
-Definition show_nat (n : nat) : string := show_N (N.of_nat n).
+
 Definition show_graph (g : list atom) : string :=
   String.concat ";" (map (fun a => show (pp_kind (akind a)) ++ ":" ++ String.concat "," (map (fun b => show (pp_bond (bk b)) ++ ">" ++ show_nat (tid b)) (bonds a))) g).
 Definition walk_model_ok (c : walk_case) : bool :=
@@ -86,7 +92,9 @@ Definition walk_analyse (cs : list walk_case) : walk_results :=
 Definition run_walk_suite (cs : list walk_case) :=
   let r := walk_analyse cs in
   [("RESULT", "corr.walk_model", wr_model r); ("RESULT", "C08.walk_conformant", wr_conf r); ("RESULT", "C08.walk_joins_matched", wr_joins r);
-   ("RESULT", "C13.walk_joins_smallest_free", wr_least r)].
+   ("RESULT", "C13.walk_joins_smallest_free", wr_least r);
+   ("RESULT", "C06.walk_nopanic", bad (fun c => match wc_res c with WPanic 2 => existsb (fun a => known_invert_panic (akind a)) (wc_g c) | WPanic _ => false | _ => true end) (fun c => show_graph (wc_g c)) cs);
+   ("RESULT", "C06.known.K2_invert_unimplemented", firstn 2 (bad (fun c => match wc_res c with WPanic 2 => negb (existsb (fun a => known_invert_panic (akind a)) (wc_g c)) | _ => true end) (fun c => show_graph (wc_g c)) cs))].
 
 Definition nkev (e : ev) : ev := match e with ERoot k => ERoot (nk_kind k) | EExtend b k => EExtend b (nk_kind k) | x => x end.
 (* ------------------------------------------------------------ histories: writer and builder driven directly *)
@@ -113,6 +121,8 @@ Definition hist_inverse_ok (c : hist_case) : bool :=
 Definition run_hist_suite (cs : list hist_case) :=
   [("RESULT", "corr.hist_model", bad hist_model_ok (fun c => show_hist (hc_h c)) cs);
    ("RESULT", "C09.history_inverse", bad hist_inverse_ok (fun c => show_hist (hc_h c)) cs);
+   ("RESULT", "C06.builder_nopanic", bad (fun c => negb (conformant (hc_h c)) || has_known_kind (hc_h c) || match hc_build c with B'Panic => false | _ => true end) (fun c => show_hist (hc_h c)) cs);
+   ("RESULT", "C06.known.B4_invert_unimplemented", firstn 2 (bad (fun c => negb (conformant (hc_h c)) || negb (has_known_kind (hc_h c)) || match hc_build c with B'Panic => false | _ => true end) (fun c => show_hist (hc_h c)) cs));
    ("RESULT", "C06.writer_nopanic", bad (fun c => negb (conformant (hc_h c)) || match hc_h c with [] => true | _ => match hc_text c with Some _ => true | None => false end end) (fun c => show_hist (hc_h c)) cs)].
 
 (* ------------------------------------------------------------ pool *)
@@ -123,7 +133,8 @@ Definition show_hits (l : list (nat * nat)) : string := String.concat " " (map (
 Definition pool_spec_ok (c : pool_case) : bool := list_eqb (opt_eqb N.eqb) (spec_hits [] (pc_hits c)) (pc_out c).
 Definition run_pool_suite (cs : list pool_case) :=
   [("RESULT", "corr.pool_model", bad pool_model_ok (fun c => show_hits (pc_hits c)) cs);
-   ("RESULT", "C13.pool_smallest_free", bad pool_spec_ok (fun c => show_hits (pc_hits c)) cs)].
+   ("RESULT", "C13.pool_smallest_free", bad pool_spec_ok (fun c => show_hits (pc_hits c)) cs);
+   ("RESULT", "C06.known.K3_more_than_99_open", firstn 2 (bad (fun c => negb (existsb (fun o => match o with None => true | _ => false end) (pc_out c))) (fun c => show_hits (pc_hits c)) cs))].
 
 (* ------------------------------------------------------------ atoms and kinds *)
 Record atom_case := AC { ac_a : atom; ac_sub : option N; ac_sup : option N; ac_arom : bool; ac_targets : list N }.
